@@ -366,12 +366,17 @@ shape_all!(S1, S1Timeline { x: f32 = F32 });
 shape_marked!(SM, SMTimeline { x: f32 = F32, z: u8 = U8, q: f64 = F64 } plain { y: f32 = F32, w: i32 = I32, r: u16 = U16 });
 shape_marked!(SN, SNTimeline { m: i16 = I16 } plain { k: f32 = F32 });
 shape_all!(S6, S6Timeline { a: f32 = F32, b: u8 = U8, c: i16 = I16, d: f64 = F64, e: u32 = U32, f: f32 = F32 });
+// the remaining integer types Lerp is implemented for
+shape_all!(S5, S5Timeline { p: i8 = I8, q: u16 = U16, r: i64 = I64, s: u64 = U64 });
+/// Number of shapes `with_shape!` dispatches over.
+pub const N_SHAPES: usize = 7;
 
 /// Dispatch helper: run a generic function over a shape chosen at run time.
 #[macro_export]
 macro_rules! with_shape {
     ($idx:expr, $f:ident ( $($arg:expr),* )) => {
-        match $idx % 6 {
+        match $idx % 7 {
+            6 => $f::<$crate::shapes::S5>($($arg),*),
             0 => $f::<$crate::shapes::S2>($($arg),*),
             1 => $f::<$crate::shapes::S4>($($arg),*),
             2 => $f::<$crate::shapes::S3>($($arg),*),
